@@ -36,6 +36,21 @@ RULE = ("(a) fmatch: 20..80 beads in an orthorhombic box, LAMMPS dump with "
         "(written digits + recorded image numbers) without any image "
         "convention, counter small_box/dihedrals_r13_or_r24_beyond_half_edge; "
         "25 % of the cases of the other families are written wrapped too; "
+        "family many-equations (one fmatch case in 14; keys "
+        "fmatch/many-equations/<bond|angle|nonbonded>/<ls>-ls/...): one block "
+        "with N = 3*nbeads*frames_per_block equations, N the next feasible "
+        "value above 4124..4200, 4500, 5000, 6001, 7000, 8191, 8193..8300, "
+        "9000, 10001, 12000, 16385, plus controls N <= 4096 and N = 12288; "
+        "variant tail: one or two spline intervals are sampled only by the "
+        "very last equations of the block (bond / pair: >= 14 special "
+        "molecules per interval in the last frame, listed last and aligned "
+        "along z so that only their z rows - the last rows of the block - "
+        "carry them; angle: the whole last frame, N mod 4096 >= 3*nbeads), "
+        "expected = the generating function; variant noisy (constrained LS): "
+        "gaussian noise of 5..40 % of the largest force, expected = the "
+        "oracle's own least-squares solution over the natural-spline space "
+        "(design matrix from own basis splines and gradients); counters "
+        "many_eq/* incl. N, N mod 4096 and tail equations per case; "
         "family irregular-grid (sub-families periodic-dihedral / bond / angle "
         "/ nonbonded / mixed = periodic dihedral + bond and/or angle and/or "
         "pair, keys fmatch/irregular-grid/<sub>/...): ~70 % of the fit grids "
